@@ -84,7 +84,7 @@ ASSUMPTIONS = [
     "for every such list in both formalisms (established by running them)",
 ]
 BOUNDS = {
-    "quick": "S: rectangular meshes 3..6 x 3..6 (16 shapes), 8 Delaunay menus (5..10 vertices) x 2 jitter variants; coefficients "
+    "quick": "[round 5: S also runs Constant / ConstantZeroth with coefficient 3e-5 (c^2 below the 1e-8 ridge, entrywise relative comparison); B additionally re-runs every list that mixes regularized mappers with unregularized objects with BrightnessZeroth on the mappers (exactly-zero rows inside a regularized block must stay in the reduced matrix)] S: rectangular meshes 3..6 x 3..6 (16 shapes), 8 Delaunay menus (5..10 vertices) x 2 jitter variants; coefficients "
              "{0.1,1,7}, signal scales {0.5,1,2}, kernel scales {0.4,0.7,1.0} x mesh spacing, adapt images {positive, with zeros, "
              "peaked}; data planes: non-adaptive schemes 2, adaptive schemes 4 (of 5 masks x sub 1,2 x identity/warp); all nine "
              "schemes (split-cross on Delaunay only). B: 7x7 frame/3x3 PSF, 2 masks, every ordered list of 1..3 distinct kinds "
@@ -103,6 +103,9 @@ BOUNDS = {
 }
 
 COEFFS = [0.1, 1.0, 7.0]
+# a legal positive coefficient whose square lies BELOW the 1e-8 ridge: the pair couplings -c^2 are then the smallest entries of H
+# and the stated matrix is compared entrywise, relative to each entry
+SMALL_COEFFS = [3.0e-5]
 SIGNAL_SCALES = [0.5, 1.0, 2.0]
 KSCALES = [0.4, 0.7, 1.0]
 ADAPT_KINDS = ["pos", "zeros", "peak"]
@@ -348,10 +351,12 @@ def make_scheme(aa, name, params, spacing):
 def scheme_menu(tier, is_del):
     """[(scheme, params)] - every parameter tuple of the value menus."""
     out = []
-    for c in COEFFS:
+    for c in COEFFS + SMALL_COEFFS:
         out.append(("Constant", [c]))
     for c in COEFFS:
         out.append(("Zeroth", [c]))
+    for c in SMALL_COEFFS:
+        out.append(("ConstantZeroth", [c, 1.0]))
     pairs = list(itertools.product(COEFFS, COEFFS))
     cz = pairs if tier == "thorough" else [(0.1, 7.0), (1.0, 1.0), (7.0, 0.1), (7.0, 7.0)]
     for a, b in cz:
@@ -758,6 +763,31 @@ def run_blocks(v, case):
                  lambda: "log_det_regularization_matrix_term = %.12g, sum of slogdet over regularized blocks = %.12g, tol %.3g" % (ld, ld_ref, tol))
         except Exception as e:
             v.fail("inversion:log-det", "log_det_regularization_matrix_term raised %r" % (e,))
+
+    # ---- a regularized block that is only positive SEMI-definite next to unregularized objects: BrightnessZeroth gives the brightest
+    # mesh pixel the weight exactly 0, so its block has an all-zero row / column that is nevertheless a regularized parameter. The
+    # reduced matrix must drop exactly the parameters of the objects WITHOUT regularization (by position, not by value).
+    if not all(regs) and any(r and k in ("rectA", "rectB", "del") for k, r in zip(kinds, regs)):
+        fz, oz = _block_objs(aa, mname, kinds, regs, seed)
+        _, tz = _block_objs(aa, mname, kinds, regs, seed)
+        for lst in (oz, tz):
+            for pos, (o, k, r) in enumerate(zip(lst, kinds, regs)):
+                if r and k in ("rectA", "rectB", "del"):
+                    o.regularization = aa.reg.BrightnessZeroth(coefficient=0.8 + 0.1 * pos, signal_scale=1.0)
+        bz = [np.array(o.regularization.regularization_matrix_from(linear_obj=o), dtype=float) if r else None for o, r in zip(tz, regs)]
+        if all(b is None or b.shape == (wd, wd) for b, wd in zip(bz, widths)):
+            Ez = expected_blocks(widths, bz)
+            zero_rows = int(sum(int((~b.any(axis=0)).sum()) for b in bz if b is not None))
+            v.outcome += "/semidef-zero-rows" if zero_rows else "/semidef"
+            invz = aa.Inversion(dataset=fz["ds"], linear_obj_list=oz, settings=fix_inv.settings(aa, wt))
+            Hzr = np.array(invz.regularization_matrix_reduced, dtype=float)
+            Hz = np.array(invz.regularization_matrix, dtype=float)
+            v.ok(Hz.shape == Ez.shape and dom.exact(Hz, Ez), "inversion:block-placement:semidefinite-block",
+                 lambda: "BrightnessZeroth blocks: regularization_matrix differs from the block-diagonal reference by %s" % (dom.maxdiff(Hz, Ez) if Hz.shape == Ez.shape else Hz.shape,))
+            Ezr = Ez[np.ix_(keep, keep)]
+            v.ok(Hzr.shape == Ezr.shape and dom.exact(Hzr, Ezr), "inversion:reduced:semidefinite-block",
+                 lambda: "BrightnessZeroth blocks (%d exactly-zero rows inside regularized blocks): reduced shape %s, expected %s = the %d regularized parameters of %d"
+                         % (zero_rows, Hzr.shape, Ezr.shape, len(keep), P))
 
     # ---- read order: the same block-diagonal matrix must be reported after F+H and the solution have been evaluated, and
     # the arrays handed out at the first read must still hold it (F+H must not be accumulated into the cached H)
